@@ -268,6 +268,32 @@ func findEmissionsIn(fn *Func, body ast.Node, sel emitSel) []ast.Node {
 					}
 				}
 			}
+			// text built with a strings.Builder / bytes.Buffer instead of `s += …`:
+			// fmt.Fprintf(&b, …), b.WriteString(…)
+			if es, ok := n.(*ast.ExprStmt); ok && sel.name != "" && sel.argIs == "" {
+				if call, ok := es.X.(*ast.CallExpr); ok {
+					var dst ast.Expr
+					switch calleeFull(info, call) {
+					case "fmt.Fprintf", "fmt.Fprint", "fmt.Fprintln":
+						if len(call.Args) > 0 {
+							if u, ok := ast.Unparen(call.Args[0]).(*ast.UnaryExpr); ok && u.Op == token.AND {
+								dst = u.X
+							} else {
+								dst = call.Args[0]
+							}
+						}
+					default:
+						if s, ok := call.Fun.(*ast.SelectorExpr); ok && (s.Sel.Name == "WriteString" || s.Sel.Name == "WriteByte" || s.Sel.Name == "WriteRune") {
+							dst = s.X
+						}
+					}
+					if id, ok := dst.(*ast.Ident); ok && isTextAccumType(info.TypeOf(id)) {
+						if _, isStr := info.TypeOf(id).Underlying().(*types.Basic); !isStr && identIs(fn, id, sel.name) {
+							out = append(out, es)
+						}
+					}
+				}
+			}
 		case emAssignIndex:
 			if as, ok := n.(*ast.AssignStmt); ok {
 				for _, l := range as.Lhs {
@@ -593,6 +619,23 @@ func intCmpCanon(be *ast.BinaryExpr) []cmpCanon {
 		out = append(out, cmpCanon{mk(A, B, d, "=="), false}, cmpCanon{mk(B, A, -d, "=="), false})
 	case token.NEQ:
 		out = append(out, cmpCanon{mk(A, B, d, "=="), true}, cmpCanon{mk(B, A, -d, "=="), true})
+	}
+	// a length is never negative: len(x) != 0 ⇔ len(x) > 0 ⇔ len(x) >= 1, len(x) == 0 ⇔ len(x) < 1
+	isLen := func(e ast.Expr) bool {
+		c, ok := ast.Unparen(e).(*ast.CallExpr)
+		if !ok || len(c.Args) != 1 {
+			return false
+		}
+		id, ok := c.Fun.(*ast.Ident)
+		return ok && (id.Name == "len" || id.Name == "cap")
+	}
+	if isLen(ea) && B == "0" {
+		switch {
+		case be.Op == token.NEQ && d == 0, be.Op == token.GTR && d == 0, be.Op == token.GEQ && d == 1:
+			out = append(out, cmpCanon{mk(A, B, 0, "=="), true}, cmpCanon{mk(A, B, 1, ">="), false}, cmpCanon{mk(B, A, 0, ">="), true})
+		case be.Op == token.EQL && d == 0, be.Op == token.LSS && d == 1, be.Op == token.LEQ && d == 0:
+			out = append(out, cmpCanon{mk(A, B, 0, "=="), false}, cmpCanon{mk(A, B, 1, ">="), true}, cmpCanon{mk(B, A, 0, ">="), false})
+		}
 	}
 	return out
 }
@@ -1101,6 +1144,16 @@ func safeAtom(fn *Func, a *Atom) bool {
 					return false
 				}
 			}
+			// a nil test of a slice or map tells "nil" from "empty": it filters data, it is
+			// not an absence check
+			if tv := info.TypeOf(other); tv != nil {
+				switch tv.Underlying().(type) {
+				case *types.Slice, *types.Map:
+					if _, isSel := ast.Unparen(other).(*ast.SelectorExpr); !isSel {
+						return false
+					}
+				}
+			}
 			// … and so does a nil test of a local that holds a schema looked up so far
 			if id, ok := ast.Unparen(other).(*ast.Ident); ok {
 				if v, isVar := info.ObjectOf(id).(*types.Var); isVar && !rootOf(fn).isParam(v) && !fn.isParam(v) && len(fn.Assignments(v)) >= 2 {
@@ -1254,6 +1307,14 @@ func runRows(prop string) func(p *Prog, r *Report) {
 									if sameText(fx, txt, ex) || sameText(fx, txtFolded, ex) || lastSel(fx.viewExpr(a.E)) == ex {
 										allowed = true
 									}
+									// part of the inlined body of a predicate the row allows by name
+									if a.From != nil && lastSel(a.From) == ex {
+										allowed = true
+									}
+									// the same comparison spelled differently (orientation, ±1, len(x) != 0 for len(x) > 0)
+									if !allowed && strings.ContainsAny(ex, "<>=") && atomMatchesEitherPol(fx, a, gcmp(ex)) {
+										allowed = true
+									}
 								}
 								if !allowed {
 									pol := ""
@@ -1334,6 +1395,9 @@ func runRows(prop string) func(p *Prog, r *Report) {
 											txt := cmpText(a.E)
 											for _, ex := range rw.exact {
 												if sameText(fn, txt, ex) || lastSel(a.E) == ex {
+													allowed = true
+												}
+												if !allowed && strings.ContainsAny(ex, "<>=") && atomMatchesEitherPol(fn, a, gcmp(ex)) {
 													allowed = true
 												}
 											}
@@ -1425,15 +1489,33 @@ func rowEmissions(fn *Func, rw row) []emHit {
 	for _, h := range hits {
 		if rw.emit.text != "" {
 			hit := false
-			ast.Inspect(h.view, func(n ast.Node) bool {
-				if bl, ok := n.(*ast.BasicLit); ok && strings.Contains(bl.Value, rw.emit.text) {
-					hit = true
-				}
-				if id, ok := n.(*ast.Ident); ok && id.Name == rw.emit.text {
-					hit = true
-				}
-				return true
-			})
+			var look func(x ast.Node, depth int)
+			look = func(x ast.Node, depth int) {
+				ast.Inspect(x, func(n ast.Node) bool {
+					if bl, ok := n.(*ast.BasicLit); ok && strings.Contains(bl.Value, rw.emit.text) {
+						hit = true
+					}
+					if id, ok := n.(*ast.Ident); ok {
+						if id.Name == rw.emit.text {
+							hit = true
+						}
+						// an element of the named collection: the variable of a range over it
+						if depth > 0 && !hit {
+							if o := fn.Info().ObjectOf(id); o != nil {
+								for _, a := range fn.Assignments(o) {
+									if rs, ok := a.(*ast.RangeStmt); ok && rs.Value != nil {
+										if vid, ok := rs.Value.(*ast.Ident); ok && fn.Info().ObjectOf(vid) == o {
+											look(rs.X, depth-1)
+										}
+									}
+								}
+							}
+						}
+					}
+					return true
+				})
+			}
+			look(h.view, 1)
 			if !hit {
 				continue
 			}
